@@ -3,7 +3,7 @@
     their axiom audit and non-vacuity examples. *)
 From Coq Require Import ZArith List Bool Lia.
 From Low Require Import Lib.Bits Lib.BitSeq Lib.Lex Lib.Bytes Model.Sigbits Spec.SigbitsSpec Spec.ShardRouteSpec
-  Proofs.SigbitsShardChecker Proofs.SigbitsLcpAll Proofs.SigbitsShard.
+  Proofs.SigbitsShardChecker Proofs.SigbitsLcpAll Proofs.SigbitsShard Proofs.SigbitsShardRoute.
 Import ListNotations.
 Open Scope Z_scope.
 
@@ -125,3 +125,13 @@ Proof.
   destruct H as [H _]. assert (X : (2 <= 1)%Z) by (apply H; vm_compute; discriminate).
   apply X. reflexivity.
 Qed.
+
+(** with such a sharding (both conclusions of [C17_route]) the lookup "last prefix that is not
+    above the key" sends every key to the shard [r] that holds it, [B[r] <= i < B[r+1]] -- the
+    judgement the op [sigbits.ShardByPrefix/route] makes on the implementation's output always
+    accepts the model's *)
+Theorem C17_route_lookup : forall keys maxSize L B,
+  shard_spec keys maxSize L B -> route_spec keys L B ->
+  route_okb (zlen keys) B (map (route (shard_prefixes keys L B)) keys) = true.
+Proof. exact route_lookup. Qed.
+Print Assumptions C17_route_lookup.
